@@ -273,7 +273,13 @@ func (mp *MuxPath) rewrite(r *httpprot.Request) {
 		return
 	}
 
-	// sure (mp.pathRE != nil && mp.pathRE.MatchString(path)) is true
+	// an entry without path, pathPrefix and pathRegexp matches every request,
+	// there is no pattern to rewrite against, so leave the path unchanged.
+	if mp.pathRE == nil {
+		return
+	}
+
+	// sure mp.pathRE.MatchString(path) is true
 	path = mp.pathRE.ReplaceAllString(path, mp.rewriteTarget)
 	r.SetPath(path)
 }
